@@ -37,6 +37,13 @@ T10 == [kfs |-> <<Kf(0, N_, <<50>>, 0), Kf(4, N_, <<77>>, 0)>>, de |-> 1, tm |->
 \* timing but NO keyframes (a timed pause): nothing is written, yet the state runs for delay + cycle x (repeats + 1)
 T11 == [kfs |-> <<>>, de |-> 1, tm |-> Tm(2, 1, 1, FALSE)]
 T12 == [kfs |-> <<>>, de |-> 1, tm |-> Tm(2, 0, -2, FALSE)]
+\* an endless loop that starts after a delay which is not a multiple of its cycle
+T13 == [kfs |-> <<Kf(4, <<24>>, N_, 0)>>, de |-> 1, tm |-> Tm(4, 1, -2, FALSE)]
+\* a property (n) given by the 0% keyframe only: it blends from the entry value to that value over the first pass
+T14 == [kfs |-> <<Kf(0, <<8>>, <<5>>, 0), Kf(4, <<80>>, N_, 0)>>, de |-> 1, tm |-> Tm(4, 0, -1, FALSE)]
+\* an endless part merged with a one-shot part of the SAME cycle length that starts later (the aggregate reports a
+\* cycle duration and an infinite repeat, yet the one-shot part is not periodic)
+T15 == [kfs |-> <<Kf(4, <<24>>, N_, 3)>>, de |-> 1, tm |-> Tm(4, 0, -2, FALSE)]
 Pool == <<
   [tls |-> <<<<T1>>, <<T2>>, <<>>, <<>>>>,          s0 |-> 1, v0 |-> <<5, 7>>],
   [tls |-> <<<<T3>>, <<T5, T4>>, <<>>, <<T1>>>>,    s0 |-> 1, v0 |-> <<5, 7>>],
@@ -45,7 +52,8 @@ Pool == <<
   [tls |-> <<<<T6>>, <<T3>>, <<>>, <<T4>>>>,        s0 |-> 2, v0 |-> <<0, 0>>],
   [tls |-> <<<<T8>>, <<>>, <<T7, T8>>, <<T2>>>>,    s0 |-> 1, v0 |-> <<3, 1>>],
   [tls |-> <<<<T9>>, <<T1, T10>>, <<>>, <<T4>>>>,   s0 |-> 1, v0 |-> <<-90, 4>>],
-  [tls |-> <<<<T11>>, <<T1, T11>>, <<T12>>, <<T7>>>>, s0 |-> 1, v0 |-> <<6, 2>>] >>
+  [tls |-> <<<<T11>>, <<T1, T11>>, <<T12>>, <<T7>>>>, s0 |-> 1, v0 |-> <<6, 2>>],
+  [tls |-> <<<<T13>>, <<T14>>, <<T15, T10>>, <<>>>>,  s0 |-> 2, v0 |-> <<30, 9>>] >>
 Cfg == Pool[K]
 
 VARIABLES cur, ticks, paused, ov, vals, tls, hist, obs, rng
